@@ -154,3 +154,56 @@ def audit(pid, timeout=1200):
         with open(cpath, "w") as fh:
             json.dump(r, fh)
     return r
+
+
+def project_imports(mods):
+    """transitive closure of `import AquaVerif.…` lines starting from the given modules"""
+    seen, todo = [], list(mods)
+    while todo:
+        m = todo.pop()
+        if m in seen:
+            continue
+        seen.append(m)
+        path = os.path.join(LEAN_DIR, *m.split(".")) + ".lean"
+        if not os.path.exists(path):
+            continue
+        with open(path) as fh:
+            for line in fh:
+                mm = re.match(r"\s*import\s+(AquaVerif\.\S+)", line)
+                if mm and mm.group(1) not in seen:
+                    todo.append(mm.group(1))
+    return sorted(seen)
+
+
+def leancheck(pid, timeout=3000):
+    """thorough tier: replay the compiled property modules and every project module they import through Lean's
+    independent checker (`leanchecker`); returns dict(ok, modules, wall, tail)"""
+    import time
+    mods = project_imports([f"AquaVerif.Properties.{nm}" for nm in property_files(pid)])
+    t0 = time.time()
+    # modules already replayed for this exact state of the Lean sources are not replayed again (the checker
+    # replays the declarations of the modules it is given, not of their imports)
+    os.makedirs(CACHE, exist_ok=True)
+    done_path = os.path.join(CACHE, f"leancheck_{lean_hash()}.json")
+    done = set()
+    if os.path.exists(done_path):
+        try:
+            done = set(json.load(open(done_path)))
+        except Exception:  # noqa: BLE001
+            done = set()
+    todo = [m for m in mods if m not in done]
+    try:
+        if not todo:
+            return dict(ok=True, modules=len(mods), replayed_now=0, wall=0.0, tail="")
+        p = subprocess.run(["lake", "env", "leanchecker"] + todo, cwd=LEAN_DIR, stdout=subprocess.PIPE,
+                           stderr=subprocess.STDOUT, timeout=timeout)
+        out = p.stdout.decode(errors="replace")
+        if p.returncode == 0:
+            with open(done_path, "w") as fh:
+                json.dump(sorted(done | set(todo)), fh)
+        return dict(ok=p.returncode == 0, modules=len(mods), replayed_now=len(todo), wall=round(time.time() - t0, 1),
+                    tail=out[-600:] if p.returncode else "")
+    except FileNotFoundError:
+        return dict(ok=None, modules=len(mods), wall=0.0, tail="leanchecker not on PATH")
+    except subprocess.TimeoutExpired:
+        return dict(ok=None, modules=len(mods), wall=round(time.time() - t0, 1), tail="timeout")
